@@ -265,7 +265,7 @@ void MD5::update(const void* plain_text_ptr, size_t plain_text_len)
 
     //! 当其出现溢出的情况时，通过以下操作把两个16位的数连在一块，生成一个
     //! 32位的二进制数串，从而扩大其储存范围
-    if (count_[0] < (plain_text_len << 3))
+    if (count_[0] < static_cast<uint32_t>(plain_text_len << 3))
         count_[1]++;
 
     count_[1] += plain_text_len >> 29;
